@@ -67,6 +67,16 @@ add("C05", "model_checking",
     "explicit-state BFS over operation histories replayed on the real objects, differential oracle against a fresh build",
     "DESIGN.md section 5 C05")
 
+add("C06", "model_checking",
+    "Four exhaustive differential sub-checks on the real code: every sequence of iteration orders at the library's set-iteration "
+    "sites (choice points, tree search with prefix replay), every permutation of the registration order of distinct signatures, "
+    "every addition of a non-applicable method, and a fixed corpus recomputed in separate processes under other hash seeds; "
+    "over static programs and union / intersection / Literal / Dependent pool programs.",
+    "Trusted: hook H1 reaches every order-sensitive set iteration (sub-check 4 without any chooser is the tripwire); choice points "
+    "with more than 4 elements are answered canonically.",
+    "stateless choice-point exploration (all iteration-order answers, deviation-bounded beyond 3 methods) + exhaustive permutation / extension enumeration",
+    "DESIGN.md section 5 C06")
+
 ALL = [f"C{i:02d}" for i in range(1, 21)]
 REASON_PENDING = "check not built yet in this round (planned: DESIGN.md section 5); not claimed until its machinery exists"
 
